@@ -56,6 +56,8 @@ def run(ctx):
     ctx.rule("R05.4", "shorthands: --signal without an explicit mode selects Signal, else --restart selects Restart")
     ctx.rule("R05.5", "kick-off: the initial empty Urgent event is sent unless --postpone, before the main task is awaited")
     ctx.rule("R05.7", "a batch is skipped before the busy decision only if it contains no path and no empty synthetic event")
+    ctx.rule("R05.8", "job retention: between actions the action worker forgets a job only when Job::is_dead() holds for it (or on a graceful quit, "
+                      "which drains the map to stop every job): the busy decision of the next action finds the same job and its running process")
     ctx.rule("R05.6", "single job: the action handler always uses one Id created outside the handler; create_job is not called in the CLI")
     try:
         cands = [f for f in facts.fns_matching(CFGP) if f.thir and [m for m in thir.find(thir.root(f), "match") if m["sty"].endswith("OnBusyUpdate")]]
@@ -236,6 +238,48 @@ def run(ctx):
                     detail="%d ids, job id arg %s" % (len(ids), pathx.desc(gc[0]["a"][1]) if gc else None))
         cj = [f.def_ for f in facts.crate_fns("watchexec_cli") for _, t in f.calls() if t.callee.is_("Handler::create_job")]
         ctx.require(not cj, "R05.6", "no-create-job", "the CLI never creates additional jobs", mk.loc(mk.line), detail=str(cj))
+    except Skip:
+        pass
+    # ---- R05.8 job retention in the action worker
+    try:
+        w = ctx.anchor_one("R05.8", "action worker coroutine",
+                           [c for c in facts.children(ctx.anchor_fn("R05.8", "watchexec::action::worker::worker")) if c.kind == "coroutine"])
+        root = thir.root(w)
+        removers = []
+        for cdef, n in thir.calls_in(root):
+            sname = strip_generics(cdef)
+            if "HashMap" in sname and sname.split("::")[-1] in ("remove", "remove_entry", "drain", "clear", "retain", "extract_if") and n["a"] and pathx.desc(n["a"][0]).lstrip("^") == "jobs":
+                removers.append((sname.split("::")[-1], n))
+        kinds = sorted(k for k, _ in removers)
+        ctx.require(kinds == ["drain", "remove"], "R05.8", "removal-sites", "jobs leave the worker's map at two places: the gc loop (remove) and the graceful quit (drain)",
+                    w.loc(w.line), detail=str(kinds), fail="the set of places where the action worker forgets jobs changed: %s" % kinds)
+        # the gc list is produced by a filter_map closure that yields the id exactly when the job is dead
+        sel = [c for c in facts.descendants(w) if c.kind == "closure" and any(t.callee.is_("Job::is_dead") for _, t in c.calls())]
+        cl = ctx.anchor_one("R05.8", "gc selection closure", sel)
+        bad = []
+        n_dead = 0
+        for q in pathx.Enum().paths(thir.root(cl)):
+            dead = None
+            for e in q.ev:
+                if e[0] == "branch":
+                    if implies(e[1], e[2], "Job::is_dead(job)", True):
+                        dead = True
+                    elif implies(e[1], e[2], "Job::is_dead(job)", False):
+                        dead = False
+            some = (q.val or "").startswith("Some")
+            if some and dead is not True:
+                bad.append("a job not known to be dead is selected: " + pathx.show_events(q.ev))
+            if some:
+                n_dead += 1
+        ctx.require(not bad and n_dead >= 1, "R05.8", "gc-selects-dead-only", "the gc closure yields a job's id only under Job::is_dead(job)", cl.loc(cl.line),
+                    detail="; ".join(bad)[:400], fail="the action worker garbage-collects jobs that are still alive: their handle is dropped after the action, which "
+                    "ends the job task and kills the running command; the next change finds no job")
+        for k, n in removers:
+            if k == "remove":
+                # inside `for id in gc`
+                fl = [m for m in thir.find(root, "match") if m.get("src") == "ForLoopDesugar" and any(x is n for x in thir.walk(m))]
+                src = [pathx.desc(thir.peel(m["e"])["a"][0]) for m in fl if thir.peel(m["e"]).get("k") == "call" and thir.peel(m["e"]).get("a")]
+                ctx.require("gc" in src, "R05.8", "remove-in-gc-loop", "jobs.remove(id) runs only over the ids selected by the gc closure", w.loc(n["l"]), detail=str(src))
     except Skip:
         pass
     try:
